@@ -201,7 +201,10 @@ class LazyData(dict):
 
 
 def header(c, nprev=2, lc=False):
-    h = {'BoxSize': Sym(c.input('BoxSize', z3.RealSort())), 'VelZSpace_to_kms': Sym(c.input('VelZSpace_to_kms', z3.RealSort())),
+    # ASDF headers hold BoxSize either as a float or as an integer (e.g. 2000): ctx.extra['int_header'] selects the latter,
+    # which matters to numpy's integer-array arithmetic
+    hs = z3.IntSort() if c.extra.get('int_header') else z3.RealSort()
+    h = {'BoxSize': Sym(c.input('BoxSize', hs)), 'VelZSpace_to_kms': Sym(c.input('VelZSpace_to_kms', hs)),
          'SimName': 'sim', 'Redshift': 0.5, 'ppd': 8, 'TimeSliceRedshiftsPrev': [0.1 * k for k in range(nprev)]}
     c.assume(z3.And(h['BoxSize'].e > 0, h['VelZSpace_to_kms'].e > 0))
     return h
